@@ -53,6 +53,9 @@ def invocation(draw):
                 ids.append(draw(st.sampled_from(VALID)) + "+")
             elif kind == "unknown":
                 ids.append(draw(st.sampled_from(UNKNOWN)))
+            elif draw(st.integers(0, 5)) == 0:
+                # not an identifier at all, although its tail looks like a LicenseRef-
+                ids.append(draw(st.sampled_from(["../LicenseRef-up", "src/LicenseRef-sub", "../../LicenseRef-out"])))
             else:
                 ids.append("LicenseRef-" + draw(st.sampled_from(["custom", "a.b", "X-1"])))
     plan = {}
@@ -146,8 +149,9 @@ def check(ctx, c):
             removed = {p for p in before if p not in after}
             if changed or removed:
                 ctx.fail(case_d, f"download altered or removed pre-existing files: changed {sorted(changed)} removed {sorted(removed)}")
-            if any(i.startswith("LicenseRef-") for i in log):
-                ctx.fail(case_d, f"a LicenseRef- identifier was requested from the network: {log}")
+            proper_refs = {i for i in ids if i.startswith("LicenseRef-") and "/" not in i}
+            if proper_refs & set(log):
+                ctx.fail(case_d, f"a LicenseRef- identifier was requested from the network: {sorted(proper_refs & set(log))}")
             if res.code == 2:
                 if created:
                     ctx.fail(case_d, f"usage error but files were created: {sorted(created)}")
@@ -181,6 +185,9 @@ def check(ctx, c):
                 if rel in before:
                     any_fail = True
                     nontrivial = True
+                    continue
+                if "/" in stripped:
+                    any_fail = True  # nothing may be created for a path-like argument
                     continue
                 if stripped.startswith("LicenseRef-"):
                     if step["source"] == "file":
